@@ -8,6 +8,7 @@ From Coq Require Import List String Bool Arith.
 From NV Require Import Model.TlsConfig Model.TlsPump Gen.TlsConfigGen.
 From NV Require Proofs.Tls_proofs.
 Import ListNotations.
+Open Scope list_scope.
 
 (* (a) over the generated lists: finite, decided by computation *)
 Theorem C20_min_everywhere_partial :
@@ -20,8 +21,10 @@ Print Assumptions C20_min_everywhere_partial.
 
 (* a context whose floor is TLS 1.2 negotiates nothing below it, whatever the peer offers *)
 Theorem C20_negotiation_floor : forall ops offered v,
-  Nat.leb (vnum TLS1_2) (vnum (effective_min ops)) = true -> negotiate ops offered = Some v -> vnum TLS1_2 <= vnum v.
-Proof. exact Tls_proofs.negotiation_floor. Qed.
+  Nat.leb (vnum TLS1_2) (vnum (effective_min ops)) = true ->
+  Nat.leb (vnum TLS1_2) (vnum (effective_max ops)) = true ->     (* both conjuncts of floor_ok *)
+  negotiate ops offered = Some v -> vnum TLS1_2 <= vnum v.
+Proof. exact Tls_proofs.negotiation_floor_partial. Qed.
 Print Assumptions C20_negotiation_floor.
 
 (* (b) the inner protocol exists only after a completed handshake; before that no handler-side
